@@ -58,8 +58,18 @@ def dispatchC11M (op : String) (j : Json) : M Json := do
                     | [] => Json.null
                     | d :: ds => jRat (ds.foldl min d)
                 | none => Json.null
+              -- variation of the bandpass over a 1e-13 (relative) neighbourhood of the exact average
+              -- wavelength: binary64 places avgwave anywhere in there, so at a jump of the bandpass
+              -- (box edge, end of a table) `tlambda` is not determined by the real-number model
+              let av := avgwave l
+              let eps : Rat := 1 / 10000000000000
+              let tlSpread : Json :=
+                match f (av * (1 - eps)), f av, f (av * (1 + eps)) with
+                | .ok a, .ok b, .ok c => jRat (max a (max b c) - min a (min b c))
+                | _, _, _ => Json.null
               pure (Json.mkObj [("ok", Json.mkObj [
                 ("n", Json.num (l.length : Nat)),
+                ("tl_spread", tlSpread),
                 ("avgwave", num (avgwave l)),
                 ("barlam", num (barlam T l)),
                 ("pivot", num (pivot T l)),
